@@ -85,9 +85,9 @@ brk("c20-exclude-attr", "C20", "C20.RETAIN", MB, '            if v is not None a
 keep("c20-tuple-children", ["C20", "C03"], MB, '            res["_children"] = [child.to_dict() for child in self.children]', '            res["_children"] = tuple(child.to_dict() for child in self.children)')
 
 # ---------------------------------------------------------------- C04 / C05 / C12.ENABLE / C18.UNREG
-brk("c04-live-device-walk", "C04", "C04.REENTRANT", R, "            for device in list(self.devices):\n                if device not in self.devices:\n                    continue\n", "            for device in self.devices:\n")
-brk("c05-live-client-walk", "C05", "C05.REENTRANT", R, "            for client in list(self.clients):\n                if client not in self.clients:\n                    continue\n", "            for client in self.clients:\n")
-brk("c05-snapshot-no-recheck", "C05", "C05.REENTRANT", R, "                if client not in self.clients:\n                    continue\n", "")
+brk("c04-live-device-walk", "C04", "C04.REENTRANT", R, "for device in self._each_registered(self.devices):", "for device in self.devices:")
+brk("c05-live-client-walk", "C05", "C05.REENTRANT", R, "for client in self._each_registered(self.clients):", "for client in self.clients:")
+brk("c05-snapshot-walk", "C05", "C05.REENTRANT", R, "        served = []\n        while True:\n            remaining = list(table)", "        for entry in list(table):\n            yield entry\n        served = []\n        while True:\n            remaining = []")
 brk("c04-sender-test", "C04", "C04.DEV", R, "if not device == sender and device.accepts(message.device):", "if device.accepts(message.device):")
 brk("c04-accepts-none", "C04", "C04.DEV", R, "device.accepts(message.device)", "device.accepts(None)")
 brk("c04-direction", "C04", "C04.DIR", "indi/message/news.py", "    from_client = True", "    from_client = True\n    from_device = True")
